@@ -65,6 +65,9 @@ func (s *addrSubst) concrete(tokens []string) string {
 			out += s.rel
 		case "N":
 			out += s.name
+		case "N2":
+			// an abstract name is a name, not a path: nothing in it may be normalised
+			out += s.name + "//y/./z/../w/"
 		case "H":
 			out += "127.0.0.1"
 		case "H6":
